@@ -22,19 +22,40 @@ theorem tie_proofRoot_shape :
       "for i, h := range proof { if leafIndex&(1<<i) == 0 { root = blake2b.SumPair(root, h) } else { root = blake2b.SumPair(h, root) } }",
       "return root"] := ⟨rfl, rfl⟩
 
-/-- consensus/merkle.go `storageProofRoot` ↦ `Sia.SP.storageProofRoot` / `Sia.SP.lastLeafIndex` -/
+/-- consensus/merkle.go `storageProofSubtreeHeight` ↦ `Sia.SP.storageProofSubtreeHeight` / `Sia.SP.lastLeafIndex` -/
+theorem tie_storageProofSubtreeHeight_shape :
+    Gen.FactsSp.storageProofSubtreeHeightSig = "func(leafIndex uint64, filesize uint64) int" ∧
+    Gen.FactsSp.storageProofSubtreeHeightBody = [
+      "const leafSize = uint64(len(types.V2StorageProof{}.Leaf))",
+      "lastLeafIndex := filesize / leafSize",
+      "if filesize%leafSize == 0 { lastLeafIndex-- }",
+      "return bits.Len64(leafIndex ^ lastLeafIndex)"] := ⟨rfl, rfl⟩
+
+/-- consensus/merkle.go `storageProofRoot` ↦ `Sia.SP.storageProofRoot` -/
 theorem tie_storageProofRoot_shape :
     Gen.FactsSp.storageProofRootSig
       = "func(leafHash types.Hash256, leafIndex uint64, filesize uint64, proof []types.Hash256) types.Hash256" ∧
     Gen.FactsSp.storageProofRootBody = [
-      "const leafSize = uint64(len(types.V2StorageProof{}.Leaf))",
-      "lastLeafIndex := filesize / leafSize",
-      "if filesize%leafSize == 0 { lastLeafIndex-- }",
-      "subtreeHeight := bits.Len64(leafIndex ^ lastLeafIndex)",
+      "subtreeHeight := storageProofSubtreeHeight(leafIndex, filesize)",
       "if len(proof) < subtreeHeight { return types.Hash256{} }",
       "root := proofRoot(leafHash, leafIndex, proof[:subtreeHeight])",
       "for _, h := range proof[subtreeHeight:] { root = blake2b.SumPair(h, root) }",
       "return root"] := ⟨rfl, rfl⟩
+
+/-- the `case *types.V2StorageProof` clause of `validateV2FileContracts` ↦ `Sia.SP.verifyV2` for its last
+two checks (the "too few proof hashes" guard of fix a3a6e71 and the root comparison over
+`StorageProofLeafHash(sp.Leaf[:])` = `leaf (padLeaf leaf64)`); the three checks before
+(proof height reached, `ProofIndex` height = contract `ProofHeight`, history proof) and the derivation
+of the leaf index are decision logic outside the Merkle model (C07's ledger part) -/
+theorem tie_v2_proofCheck_shape :
+    Gen.FactsSp.v2ProofCheck = [
+      "sp := *r",
+      "if ms.base.childHeight() < fc.ProofHeight => return error",
+      "if sp.ProofIndex.ChainIndex.Height != fc.ProofHeight => return error",
+      "if !ms.base.Elements.containsChainIndex(sp.ProofIndex.Share()) => return error",
+      "leafIndex := ms.base.StorageProofLeafIndex(fc.Filesize, sp.ProofIndex.ChainIndex.ID, types.FileContractID(fcr.Parent.ID))",
+      "if fc.Filesize > 0 && len(sp.Proof) < storageProofSubtreeHeight(leafIndex, fc.Filesize) => return error",
+      "if storageProofRoot(ms.base.StorageProofLeafHash(sp.Leaf[:]), leafIndex, fc.Filesize, sp.Proof) != fc.FileMerkleRoot => return error"] := rfl
 
 /-- v1 closure `lastLeafIndex` ↦ `Sia.SP.lastLeafIndex` (same value as the v2 computation) -/
 theorem tie_v1_lastLeafIndex_shape :
